@@ -23,7 +23,7 @@ MANIFEST = {
              '(each is an invariant of the search history). The claim is "these parts are as the property needs them".'),
 }
 EXPLANATION = 'Unsafe inventory + premise dominance for the sentinel scans + structural completeness facts of run_dispatch.'
-RULES = ['C05-1.unsafe', 'C05-1.premises', 'C05-2.complete', 'C05-3.timedpath', 'C05-4.times', 'C05-5.index', 'C05-6.cursor', 'C05-7.blocking', 'C05-8.queue', 'C05-9.divnodes', 'C05-10.esttimes', 'C05-11.blocked']
+RULES = ['C05-1.unsafe', 'C05-1.premises', 'C05-2.complete', 'C05-3.timedpath', 'C05-4.times', 'C05-5.index', 'C05-6.cursor', 'C05-7.blocking', 'C05-8.queue', 'C05-9.divnodes', 'C05-10.esttimes', 'C05-11.blocked', 'C05-12.protocol']
 ASSUMPTIONS = ['the sentinel index passed by callers is the one the scan was designed for (not decided)']
 
 # reviewed unsafe sites: function -> number of unchecked accesses (DESIGN A.3; 14 in total)
@@ -41,6 +41,7 @@ def run(ctx):
     blocking(ctx)
     queue(ctx)
     divnodes(ctx)
+    protocol(ctx)
     # clauses shared with C04, decided by the same rules: the time an advance starts from and the stamps it writes (arrival times
     # non-decreasing and never faster than the free-running estimates), and the addressing of authorities (a wrong entry index
     # reads another train's authority or aborts past the end of the list)
@@ -51,6 +52,59 @@ def run(ctx):
     from . import C15
     C15.run(RuleProxy(ctx, {k: 'C05-10.esttimes' for k in C15.RULES}))
     C04.run(RuleProxy(ctx, {'C04-0.start': 'C05-4.times', 'C04-4.entry': 'C05-4.times', 'C04-6.clear': 'C05-4.times', 'C04-7.occupancy': 'C05-4.times', 'C04-8.index': 'C05-5.index', 'C04-9.blocked': 'C05-11.blocked'}))
+
+
+def protocol(ctx):
+    """C05-12.protocol: the main loop of run_dispatch fixes an advance only in a configuration the deadlock check found free, and
+    rewinds on a positive verdict: the decision directly guarding the loop-end fix_advance is on the deadlock verdict (the first
+    component of check_deadlock's result, or the flag carried over from the previous round) with outcome false; the rewind is
+    guarded by the verdict with outcome true.  (An inverted test fixes deadlocked configurations and keeps advancing free ones.)"""
+    R = 'C05-12.protocol'
+    b = ctx.anchor(R, 'run_dispatch')
+    if b is None:
+        return
+    an = analysis_or_fail(ctx, R, b)
+    if an is None:
+        return
+    cds = [c for c in an.calls if c.targets and any(t.endswith('check_deadlock') for t in c.targets)]
+    verdicts = []
+    for c in cds:
+        r = c.result
+        if r and r[0] == 'ok' and r[1][0] == 'tuple' and len(r[1]) >= 2:
+            verdicts.append(r[1][1])
+    if len(verdicts) < 2:
+        ctx.unproved(R, 'run_dispatch|verdicts', 'expected the results of two check_deadlock calls (after advancing, after rewinding), found %d' % len(verdicts), ctx.where(b))
+        return
+
+    def leaves(t, out):
+        if t[0] == 'gamma':
+            leaves(t[2], out); leaves(t[3], out)
+        else:
+            out.append(t)
+
+    def is_verdict(t):
+        ls = []
+        leaves(t, ls)
+        return bool(ls) and any(x in verdicts for x in ls) and all(x in verdicts or (x[0] == 'loopvar' and x[2][0][0] == 'local') for x in ls)
+    fx = [c for c in an.calls if c.targets and any(t.endswith('TrainDisp::fix_advance') for t in c.targets)]
+    rw = [c for c in an.calls if c.targets and any(t.endswith('TrainDisp::rewind') for t in c.targets)]
+    # the fix at the end of the loop body is the one not under the "train has finished" branch: the last of the calls in block order
+    ctx.check(len(fx) == 2 and len(rw) == 1, R, 'run_dispatch|sites', 'two fix_advance sites (finished train, deadlock-free advance) and one rewind site',
+              'found %d fix_advance and %d rewind call sites' % (len(fx), len(rw)), ctx.where(b))
+    if len(fx) == 2 and len(rw) == 1:
+        end = fx[1]
+        dec = [(cnd, o) for cnd, o in end.pc if cnd[0] != 'pathset']
+        cnd, o = dec[-1] if dec else (None, None)
+        ctx.check(cnd is not None and is_verdict(cnd) and o == '0', R, 'run_dispatch|fix only when free',
+                  'the advance is fixed (and the round ends) on the FALSE outcome of the deadlock verdict',
+                  'fix_advance is guarded by outcome %s of %s' % (o, show(cnd, an.names)[:160] if cnd else None), ctx.where(b, end.span))
+        hit = [(cnd, o) for cnd, o in rw[0].pc if cnd in verdicts or is_verdict(cnd)]
+        ctx.check(bool(hit) and all(o not in ('0',) for cnd, o in hit), R, 'run_dispatch|rewind on deadlock',
+                  'the rewind is taken on the TRUE outcome of the deadlock verdict', 'rewind is guarded by %s' % [(o, show(cnd, an.names)[:80]) for cnd, o in hit], ctx.where(b, rw[0].span))
+        # the finished train: fixed under the abort-unless-free assertion (a diverging edge on the verdict precedes the call)
+        inv = inventory(ctx)
+        cfg = inv.cfg(b)
+        ctx.check(fx[0].block in cfg.reach and fx[0].block != end.block, R, 'run_dispatch|finished', 'a finished train is fixed in its own branch', 'sites coincide', ctx.where(b, fx[0].span))
 
 
 def unsafe_inventory(ctx):
